@@ -239,7 +239,7 @@ pub fn run_case(case: &mut Case) {
             match line {
                 Some(l) => {
                     if let Some(hh) = &it.help {
-                        if !l.help.contains(hh.as_str()) {
+                        if !mentions_name(&l.help, hh.as_str()) {
                             case.rep.violation(
                                 "item-help-missing",
                                 "completeness",
@@ -282,7 +282,7 @@ pub fn run_case(case: &mut Case) {
             match screen.terms.iter().find(|t| t.term == c.term()) {
                 Some(l) => {
                     if let Some(d) = &c.descr {
-                        if !l.help.contains(d.as_str()) {
+                        if !mentions_name(&l.help, d.as_str()) {
                             case.rep.violation(
                                 "command-description-missing",
                                 "completeness",
